@@ -6,6 +6,8 @@ import (
 	"strings"
 	"sync"
 
+	"github.com/alttpo/snes/asm"
+
 	"verif/internal/mem"
 	"verif/internal/ref"
 	"verif/internal/vf"
@@ -457,7 +459,7 @@ func genProgram(g *vf.Rng, s *ref.State, img *mem.Image, n int) {
 }
 
 func C01(r *vf.Run) {
-	r.Rule = "three layers, all seeded: (1) every opcode x (M,X) x stale-copy flag x boundary-directed valuations (coverage-guided choice among candidates using the model's wrap events); (2) random instruction streams run in lockstep for up to 256 steps; (3) exhaustive 8-bit ADC/SBC/CMP operand x accumulator x carry in binary and decimal. Both interpreters are compared with the independent model after every step on A,X,Y,S,D,DBR,K,PC,P,E and on final memory over the union of written addresses. A cell is (opcode, M, X) or (addressing mode, wrap event)"
+	r.Rule = "three layers, all seeded: (1) every opcode x (M,X) x stale-copy flag x boundary-directed valuations (coverage-guided choice among candidates using the model's wrap events); (2) random instruction streams run in lockstep for up to 256 steps; (3) exhaustive 8-bit ADC/SBC/CMP operand x accumulator x carry in binary and decimal; (4) programs assembled with the library's own Emitter (labels, branches, data, width switches) run in lockstep. Both interpreters are compared with the independent model after every step on A,X,Y,S,D,DBR,K,PC,P,E and on final memory over the union of written addresses. A cell is (opcode, M, X) or (addressing mode, wrap event)"
 	r.Assume = []string{
 		"the reference model in /verif/internal/ref is the WDC programming model (written from the data sheet; shares no code with /repo)",
 		"abstentions: A/N/V/Z/C after decimal ADC/SBC with invalid BCD operands, V after any decimal operation, steps whose reads and writes alias other than the operand RMW (bus micro-order)",
@@ -589,6 +591,56 @@ func C01(r *vf.Run) {
 			w.flush()
 		})
 		_ = steps
+	}
+	if r.Phase("assembled") {
+		// programs assembled with the library's own Emitter (labels, branches, loops, data, width switches)
+		n := r.N(1600, 160000)
+		chunks := 160
+		r.Parallel(ncpu, chunks, func(wi, ci int) {
+			w := newC01Worker(r)
+			g := r.Rand("asm").Fork(uint64(ci))
+			var local int64
+			for i := 0; i < n/chunks && !r.TooMany(); i++ {
+				calls, _, _ := genHistory(g, histOpts{maxCalls: 90, withRefs: true})
+				e := asm.NewEmitter(make([]byte, 8192), false)
+				for _, c := range calls {
+					invoke(e, c)
+				}
+				if err := e.Finalize(); err != nil {
+					w.cells["assembled:finalize-failed"]++
+					continue
+				}
+				base := e.GetBase()
+				var s ref.State
+				s = genState(g)
+				s.K, s.PC = byte(base>>16), uint16(base)
+				s.P = s.P&^0x38 | g.U8()&0x08
+				for _, c := range calls { // the width the assembler was told to assume at the start
+					if c.Op == "assumesep" {
+						s.P |= byte(c.Arg) & 0x30
+					}
+					if c.Op != "assumesep" && c.Op != "setbase" && c.Op != "comment" {
+						break
+					}
+				}
+				if s.P&0x10 != 0 {
+					s.X &= 0xFF
+					s.Y &= 0xFF
+				}
+				img := mem.New(g.U64())
+				for k, b := range e.Bytes() {
+					img.Ov[base&0xFF0000|(base+uint32(k))&0xFFFF] = b
+				}
+				st, reason := w.runProgram(s, img, g.Intn(3) == 0, g, 300, "assembled")
+				local += int64(st)
+				w.cells["assembled-end:"+reason]++
+				if ci == 0 && i == 0 {
+					r.Sample(map[string]interface{}{"assembled_calls": histStrings(calls)[:min(10, len(calls))], "base": fmt.Sprintf("$%06x", base), "steps": st, "ended": reason})
+				}
+			}
+			r.AddExtra("assembled_program_steps", local)
+			w.flush()
+		})
 	}
 	if r.OnlyPhase == "" {
 		for op := 0; op < 256; op++ {
